@@ -47,6 +47,14 @@ pub fn candidates(g: &mut Gen, nh: usize, mode: usize) -> Vec<Cand> {
             v.push(Cand::Rotate(nh / 2));
             v.push(Cand::Rotate(1));
             v.push(Cand::Reverse);
+            // every proper prefix / suffix of the genuine MAC padded with 00 or FF: accepted
+            // by any comparison that stops early or ignores padding
+            for k in 0..nh {
+                for fill in [0u8, 0xFF] {
+                    v.push(Cand::KeepPrefix(k, fill));
+                    v.push(Cand::KeepSuffix(k, fill));
+                }
+            }
         }
         m => {
             // byte substitutions: mode m covers offsets (m-1)*chunk..
@@ -71,6 +79,10 @@ pub enum Cand {
     Swap(usize, usize),
     Rotate(usize),
     Reverse,
+    /// the first k genuine bytes, the rest replaced by `fill`
+    KeepPrefix(usize, u8),
+    /// the last k genuine bytes, the rest replaced by `fill`
+    KeepSuffix(usize, u8),
 }
 
 /// A world is built in two phases: phase 1 (sessions) is run to learn the
@@ -176,6 +188,17 @@ pub fn gen_world(seed: u64, idx: u64, s: &dyn SuiteOps, mode: usize) -> World {
                 Cand::Swap(i, j) => x.swap(i, j),
                 Cand::Rotate(k) => x.rotate_left(k),
                 Cand::Reverse => x.reverse(),
+                Cand::KeepPrefix(k, fill) => {
+                    for b in x.iter_mut().skip(k) {
+                        *b = fill;
+                    }
+                }
+                Cand::KeepSuffix(k, fill) => {
+                    let n = x.len();
+                    for b in x.iter_mut().take(n - k.min(n)) {
+                        *b = fill;
+                    }
+                }
             }
             if x == base && genuine.is_some() {
                 continue; // e.g. a swap of two equal bytes: that *is* the genuine message
@@ -228,7 +251,7 @@ pub fn gen_world(seed: u64, idx: u64, s: &dyn SuiteOps, mode: usize) -> World {
 
 pub fn run(ctx: &Ctx) -> Report {
     let mut rep = Report::new(
-        "per world: 6 pending server states (two sessions of u1, u2, wrong-password, fake record, abandoned) x candidate finalizations: every finalization of the world (cross-session/user), all 8*Nh single-bit flips, all 255*Nh single-byte substitutions (modes 1..Nh/8, 8 offsets each), all-zero, all-0xFF, 64 random, wrong lengths, 12 secret-free constant MACs/hashes, constant-key MACs over each chunk of the stored state against the state reloaded through native/bincode/JSON (where the genuine finalization must still succeed), 64 XOR-cancelling byte pairs, all adjacent transpositions, rotations, reversal; the genuine one must succeed with the client's key. The substitution family is enumerated completely per state; states/worlds are seeded samples. non-trivial = contains a predicted rejection",
+        "per world: 6 pending server states (two sessions of u1, u2, wrong-password, fake record, abandoned) x candidate finalizations: every finalization of the world (cross-session/user), all 8*Nh single-bit flips, all 255*Nh single-byte substitutions (modes 1..Nh/8, 8 offsets each), all-zero, all-0xFF, 64 random, wrong lengths, 12 secret-free constant MACs/hashes, constant-key MACs over each chunk of the stored state against the state reloaded through native/bincode/JSON (where the genuine finalization must still succeed), 64 XOR-cancelling byte pairs, all adjacent transpositions, rotations, reversal, every proper prefix and suffix of the genuine MAC padded with 00 / FF; the genuine one must succeed with the client's key. The substitution family is enumerated completely per state; states/worlds are seeded samples. non-trivial = contains a predicted rejection",
     );
     rep.exhaustive = Some(true);
     let mut suites: Vec<&'static dyn SuiteOps> = SIM_SUITES.to_vec();
